@@ -49,6 +49,9 @@ import (
 
 const rpcIface = 0xabcdef0123456789
 
+// AnswerQueueSize of the harness's local capabilities (scripts starting with "q<n>," change it)
+var rpcQueueSize = 64
+
 type rpcEnv struct {
 	mu      sync.Mutex
 	events  []string // since the last flush
@@ -116,7 +119,7 @@ func (e *rpcEnv) newCap() *appCap {
 			Impl:   func(ctx context.Context, call *server.Call) error { return a.impl(ctx, call, m) },
 		})
 	}
-	a.srv = server.New(methods, a, a, &server.Policy{MaxConcurrentCalls: 64, AnswerQueueSize: 64})
+	a.srv = server.New(methods, a, a, &server.Policy{MaxConcurrentCalls: 64, AnswerQueueSize: rpcQueueSize})
 	a.client = capnp.NewClient(a.srv)
 	return a
 }
@@ -1161,6 +1164,15 @@ func (e *rpcEnv) settle() string {
 }
 
 func execRPCScript(script string, bootstrap bool) string {
+	rpcQueueSize = 64
+	if strings.HasPrefix(script, "q") {
+		if i := strings.Index(script, ","); i > 0 {
+			if n, err := strconv.Atoi(script[1:i]); err == nil && n > 0 {
+				rpcQueueSize = n
+				script = script[i+1:]
+			}
+		}
+	}
 	e := &rpcEnv{}
 	e.t = &scriptTransport{env: e, in: make(chan []byte), closed: make(chan struct{})}
 	before := runtime.NumGoroutine()
